@@ -11,6 +11,18 @@ checks = {
    text="Bounded-exhaustive enumeration on the real store: every size around every multiple of the cipher block size x compressibility x scenario (fresh, overwrite, neighbour untouched, delete, list, failing writer), and for reference files EVERY truncation length and EVERY single-byte alteration, block-level operations and foreign passphrases; oracle: Get returns exactly the stored bytes or an error.",
    note="Sequential part only so far (the interleaving part is listed in DESIGN.md as pending). crypto/rand is pinned while base files are written so that files are byte-identical in every run.",
    technique="exhaustive enumeration of sizes and of all single-fault corruptions of stored files", design="3/C09"),
+ "C10": dict(level="exploration", engine="ENUM",
+   text="A generator derived from the RFC 3501/2971/4315/6851/2177/3691 grammar builds the expected command.Command and its wire text together for every supported command; all ATOM-CHAR classes, every legal string encoding (atom/quoted/literal), sequence sets <=3, flag lists, all fetch attributes / sections / partials, search trees to depth 2 (3 over representatives), date grids, keyword letter cases, and every chunking of the byte stream (whole, byte-wise, every 2-way split, 3-way splits for short commands in thorough) are parsed through the production reader stack; oracle reflect.DeepEqual(parsed, expected).",
+   note="Parser level (imap/command.Parser through bufio + InputCollector + Scanner with the literal-continuation callback). 20M evaluations quick, ~300M thorough.",
+   technique="bounded-exhaustive enumeration of grammar derivations x encodings x stream chunkings against a constructed expected value", design="3/C10"),
+ "C13": dict(level="exploration", engine="ENUM",
+   text="Messages generated with byte offsets known by construction (all MIME trees of depth <=2 over text/plain, text/html, octet-stream, message/rfc822; folded / duplicate / empty-valued headers; LF-only; 8-bit; sizes across the store's block boundaries) are APPENDed to a real server and EVERY section spec is fetched: [], HEADER, TEXT, every part path and one past each end, .MIME/.HEADER/.TEXT, HEADER.FIELDS / .NOT for every subset of <=2 fields, RFC822*, and partials over an offset/length grid incl. 2^63-1; oracle from the generator's offsets; a strict response parser enforces literal framing.",
+   note="The connector's copy of each message is dropped after APPEND so that a store read error cannot be healed by a silent re-download. Choices the RFC leaves open are accepted (listed in the evidence).",
+   technique="bounded-exhaustive enumeration of (message shape, section spec) pairs against offsets known by construction", design="3/C13"),
+ "C14": dict(level="model_checking", engine="E1",
+   text="Exhaustive BFS over histories of CREATE / DELETE / RENAME / SUBSCRIBE / UNSUBSCRIBE from two sessions and connector mailbox updates on the real server against a reference hierarchy model (implicit parents, inferiors carried by RENAME, INBOX rules, protected recovery mailbox, deleted subscriptions); after every transition the server's namespace must equal the model, refusals required by the rules must happen, and on every reached state LIST and LSUB for every pattern over {%,*,a,b,delimiter,.} up to the reported length x 3 references are compared with an RFC 3501 matcher (\\Noselect for names that exist only as parents).",
+   note="Bounds: names of depth <=3, depth 2 (quick) / 4 (thorough), delimiters / and . (quick) plus \\ | ] ^ (thorough).",
+   technique="explicit-state BFS over namespace histories of the implementation against a reference model, with a LIST/LSUB matcher check-extension on every state", design="3/C14"),
  "C15": dict(level="exploration", engine="ENUM",
    text="All search-key trees of depth <=2 over 49 key instances (NOT, OR, juxtaposition, parenthesised lists), depth-3 shapes over representatives, SEARCH and UID SEARCH, quoted/literal/charset encodings, against fresh / stale (unannounced expunge) / pending (unannounced arrival) views of a real server; a reference evaluator over the session's own rows decides the expected result for every expression.",
    note="Finite key/argument alphabet over a 5-message fixture; internal dates at 12:00 UTC so that time-zone interpretation is not judged.",
